@@ -198,7 +198,7 @@ func edit(t *rapid.T, tg *target, s []byte) []byte {
 	if rapid.IntRange(0, 2).Draw(t, "headbias") == 0 {
 		pos = rapid.IntRange(0, min(len(out)-1, 40)).Draw(t, "headpos")
 	}
-	ops := []string{"set", "flip", "int", "int", "int", "delete", "insert", "dup", "trunc"}
+	ops := []string{"set", "flip", "int", "int", "int", "rellen", "rellen", "delete", "insert", "dup", "trunc"}
 	if tg.text {
 		ops = []string{"set", "text", "text", "text", "delete", "insert", "dup", "trunc", "int"}
 	}
@@ -211,6 +211,42 @@ func edit(t *rapid.T, tg *target, s []byte) []byte {
 		h := drawHostileInt(t, "h")
 		for i := 0; i < len(h) && pos+i < len(out); i++ {
 			out[pos+i] = h[i]
+		}
+	case "rellen":
+		// a length field that is just below / at / just above what really follows it (the values that separate
+		// a correct bounds check from one that forgets the width of the field itself or is off by one)
+		w := rapid.SampledFrom([]int{1, 2, 3, 4, 8}).Draw(t, "rw")
+		marker := rapid.SampledFrom([]int{-1, -1, 0xfc, 0xfd, 0xfe}).Draw(t, "rmarker") // MySQL length-encoded prefixes
+		switch marker {
+		case 0xfc:
+			w = 2
+		case 0xfd:
+			w = 3
+		case 0xfe:
+			w = 8
+		}
+		field := w
+		if marker >= 0 {
+			field++
+		}
+		rest := len(out) - pos - field
+		if rest < 0 {
+			rest = 0
+		}
+		v := rest + rapid.IntRange(-field-2, field+2).Draw(t, "rdelta")
+		if v < 0 {
+			v = 0
+		}
+		h := putInt(w, rapid.Bool().Draw(t, "rbe"), uint64(v))
+		if marker >= 0 {
+			h = append([]byte{byte(marker)}, putInt(w, false, uint64(v))...)
+		}
+		if rapid.Bool().Draw(t, "rinsert") {
+			out = append(append(append([]byte(nil), out[:pos]...), h...), out[pos:]...)
+		} else {
+			for i := 0; i < len(h) && pos+i < len(out); i++ {
+				out[pos+i] = h[i]
+			}
 		}
 	case "text":
 		f := drawHostileText(t, "x")
